@@ -593,6 +593,10 @@ func decodeArray(raw []byte, elemOid int) []interface{} {
 	if fixed {
 		elemAlign = typeAlign(elemOid, elemLen)
 	}
+	switch elemOid {
+	case OidPath, OidPolygon, OidInt8Range, OidTsRange, OidTsTzRange:
+		elemAlign = 8 // variable-length types with typalign 'd'
+	}
 	return parseArrayElements(raw, int(dataStart), int(total), elemOid, elemLen, elemAlign, fixed, nullBitmap)
 }
 
